@@ -27,6 +27,10 @@ Section CatalogProofs.
   Local Notation leaves_stable := (leaves_stable K keqb).
   Local Notation cstep := (cstep K keqb hash).
   Local Notation crun := (crun K keqb hash).
+  Local Notation cop_safe := (cop_safe K).
+  Local Notation COp := (COp K).
+  Local Notation CRegisterTable := (CRegisterTable K).
+  Local Notation CDropTable := (CDropTable K).
 
   Opaque tfname CWTF CONCAT.
   Arguments Cache.aset : simpl never.
@@ -286,6 +290,14 @@ Section CatalogProofs.
       split; [split; [|split]; auto|split; [apply kept_refl|reflexivity]].
     - (* CDropTable *)
       apply negb_true_iff in Hok. subst force. cbn. split; [split; [|split]; auto|split; [apply kept_refl|auto]].
+    - (* CDropFrame *)
+      destruct (aget (st_cache K s) key) eqn:E; [|cbn; split; [split; [|split]; auto|split; [apply kept_refl|auto]]].
+      pose proof (iv_cache_cbs _ _ _ _ I _ _ E) as Hh.
+      pose proof (drop_handle_fields K keqb s h) as F. cbn in F.
+      split; [split; [apply (drop_handle_InvS K keqb hash keqb_spec); auto|split; [apply (drop_handle_sound K keqb hash keqb_spec); auto|]]|split].
+      + eapply CatOK_subset; [exact C|apply drop_db_subset].
+      + apply drop_kept; auto.
+      + tauto.
     - (* CRealtime *)
       set (u := st_ctr K s).
       set (s0 := set_luid_ctr K s (st_luid K s) (S u)).
@@ -426,8 +438,48 @@ Section CatalogProofs.
     amem (st_db K s) (PL (LPlain name)) = true -> cstep s (CRegisterTable name false ver) = (s, [Refused name]).
   Proof. intros H. apply (register_refused_ci s name); auto. apply ci_eqb_refl. Qed.
 
+  Lemma drop_handle_refused' s h : h_cbs K h = false -> drop_handle K keqb s h = (s, [Refused (pbase K (h_phys K h))]).
+  Proof. intros H. unfold drop_handle. rewrite H. reflexivity. Qed.
+
+  (* the invariant behind the created_by_splink guard: in every state reached by a safe history, a frame that Splink
+     allows to be dropped (created_by_splink = True) - whether cached or handed out - points at a table of Splink
+     origin under a hashed name, never at a user's or caller's table *)
+  Theorem only_splink_tables_are_droppable inputs ver others tfcols params uid luid fx cs :
+    forallb (cop_safe fx) cs = true ->
+    let s := crun (cinit K inputs ver others tfcols params uid luid fx) cs in
+    forall key h, aget (st_cache K s) key = Some h -> h_cbs K h = true ->
+      is_hashed K (h_phys K h) = true /\
+      forall e, aget (st_db K s) (h_phys K h) = Some e -> e_origin e = Splink.
+  Proof.
+    intros Hok s key h Hg Hc.
+    destruct (crun_inv cs (cinit K inputs ver others tfcols params uid luid fx) Hok
+                       (cinit_inv inputs ver others tfcols params uid luid fx)) as ((I & _ & C) & _). fold s in I, C.
+    pose proof (iv_cache_cbs _ _ _ _ I _ _ Hg Hc) as Hh. split; auto.
+    intros e He. apply (C _ _ He). exact Hh.
+  Qed.
+
+  (* so dropping through ANY frame Splink cached never removes an entry that is not of Splink origin *)
+  Theorem drop_frame_spares_foreign_tables inputs ver others tfcols params uid luid fx cs key :
+    forallb (cop_safe fx) cs = true ->
+    let s := crun (cinit K inputs ver others tfcols params uid luid fx) cs in
+    forall p e, aget (st_db K s) p = Some e -> e_origin e <> Splink ->
+                aget (st_db K (fst (cstep s (CDropFrame K key)))) p = Some e.
+  Proof.
+    intros Hok s p e He Ho.
+    destruct (crun_inv cs (cinit K inputs ver others tfcols params uid luid fx) Hok
+                       (cinit_inv inputs ver others tfcols params uid luid fx)) as ((I & _ & C) & _). fold s in I, C.
+    cbn. destruct (aget (st_cache K s) key) eqn:E; [|exact He].
+    rewrite (drop_handle_fst K keqb). destruct (h_cbs K h) eqn:Ec; [|exact He]. cbn.
+    pose proof (iv_cache_cbs _ _ _ _ I _ _ E Ec) as Hh.
+    rewrite (aget_aremove_other K keqb keqb_spec); auto. intros ->. apply Ho. apply (C _ _ He). exact Hh.
+  Qed.
+
   Theorem drop_refused s name : cstep s (CDropTable name false) = (s, [Refused name]).
-  Proof. reflexivity. Qed.
+  Proof.
+    change (cstep s (CDropTable name false)) with
+      (drop_handle K keqb s {| h_templ := name; h_phys := PL (LPlain name); h_src := Leaf (LPlain name); h_cbs := false |}).
+    rewrite drop_handle_refused' by reflexivity. reflexivity.
+  Qed.
 
   (* the created_by_splink guard of SplinkDataFrame.drop_table_from_database_and_remove_from_cache *)
   Theorem drop_handle_refused s h : h_cbs K h = false -> drop_handle K keqb s h = (s, [Refused (pbase K (h_phys K h))]).
